@@ -12,3 +12,5 @@ import FlodymProofs.Props.C04
 #print axioms Flodym.C04.castTo_order_independent
 #print axioms Flodym.C04.cumsum_order_independent
 #print axioms Flodym.C04.getitem_order_independent
+#print axioms Flodym.C04.setitem_source_order_independent
+#print axioms Flodym.C04.setitem_whole_order_independent
